@@ -60,7 +60,7 @@ CLAIMED = {
          "maturity = block time + exit delay exactly when status is Inactive/Tombstoned or the remainder falls below the threshold, else + unlock delay; the entry written is the stored entry for that instant extended by this unlock; exiting zeroes power, moves to Inactive, clears the locking index and never re-ranks; the sweep covers (-inf, block time], removes every visited key, appends every visited unlock once in order and stores the queue; no two read-modify-write sequences on one keeper map with different key expressions are interleaved (lost update); the end blocker evicts every member of the last set that is not re-elected, whatever its status (C13/R4); the locking EndBlock hook reaches the sweep on every success path",
          "time arithmetic, delivery caps over histories"),
  "C16": ("must-pass proof facts before any write in NewVoter + voter-status typestate with queue pairing + relational guard on the remaining-member count + election path searches",
-         "a voter joins only after both proofs over the same registration sign doc bound to chain/epoch/proposer, with matching key hash and PENDING status; status transitions are the allowed ones and each boarding write is paired with one queue append; a removal is queued only if the remaining count stays >= 1; an election is skipped only within the period with an accepted proposer / no or unexpired timeout, and started only when the period elapsed or a configured timeout expired unaccepted; every election path increments the epoch once, stores the relayer, and replaces/swaps the proposer with a voter that leaves the voter list; applied queues are cleared and stored; a voter record is created only when its address is absent and after a branch on a lookup that receives the new vote key and reads the voter records, comparing records of every status (distinct members); the new record carries the height of its registration (NewVoter's proofs are bound to it); genesis import refuses a proposer that is also listed among the voters; wherever the module chooses between a voter's VoteKey field and its SHA-256, the raw field is taken only under status Pending and the hash only otherwise; a proposer that acts is marked accepted on every success exit of VerifyProposal / VerifyNonProposal; the relayer EndBlock hook runs the end blocker; a record stored with a possibly new proposer carries ProposerAccepted = false; after a voter record is retired no success exit is reached without the proposer having been compared with the retired addresses",
+         "a voter joins only after both proofs over the same registration sign doc bound to chain/epoch/proposer, with matching key hash and PENDING status; status transitions are the allowed ones and each boarding write is paired with one queue append; a removal is queued only if the remaining count stays >= 1; an election is skipped only within the period with an accepted proposer / no or unexpired timeout, and started only when the period elapsed or a configured timeout expired unaccepted; every election path increments the epoch once, stores the relayer, and replaces/swaps the proposer with a voter that leaves the voter list; applied queues are cleared and stored; a voter record is created only when its address is absent and after a branch on a lookup that receives the new vote key and reads the voter records, comparing records of every status (distinct members); the new record carries the height of its registration (NewVoter's proofs are bound to it); genesis import refuses a proposer that is also listed among the voters; wherever the module chooses between a voter's VoteKey field and its SHA-256, the raw field is taken only under status Pending and the hash only otherwise; a proposer that acts is marked accepted on every success exit of VerifyProposal / VerifyNonProposal; the relayer EndBlock hook runs the end blocker; a record stored with a possibly new proposer carries ProposerAccepted = false; after a voter record is retired no success exit is reached without the proposer having been compared with the retired addresses; the duplicate tests of the relayer genesis import record the key they test",
          "election timing over block-time histories, randomness quality"),
  "C17": ("sibling recipe extraction (canonical SSA expressions of builder vs verifier) + literal/guard facts + key-type matrix facts",
          "for each key type and version the address builder and the script verifier derive the witness program / data script by the same recipe over the same argument roles; verifier literals match the address kind; v1 is ECDSA-only on both sides and deposit verification does not delegate to a helper with a different key matrix; the query dispatches versions like verification; DecodeBtcAddress passes network, IsForNet, p2pk rejection and PayToAddrScript; the relayer's own address check (change / consolidation outputs) tests length, version opcode and push opcode per key type; no process-local state in the keepers the address query reads (C07/R3)",
@@ -69,7 +69,7 @@ CLAIMED = {
          "every collection is exported and imported or is a derived index rebuilt on import; every GenesisState field is assigned on export and consumed on import; derived indices obey the runtime guards (ranked states, positive power, Active-only validator set, queue by voter status); the exported validator set is the recorded ValidatorSet with the validators' keys; every record the running chain builds with statically known field shapes passes the Validate method run on import; no named status value leads to a status-decided panic in code run on import; for every record the chain modifies field by field at run time, Validate (and the helpers it hands the record to) has no failure branch on a modified integer field that a storable value satisfies (interval evaluation against the guards dominating the stores); voter records are created only with an unused vote key (import refuses duplicates); the begin blocker cannot fail on the first block after import (no last commit); the order of the (not exported) voter queue is not copied into the persistent voter list of the group unless canonically ordered first; the exported block-hash window starts at the tip, descends by one and its loop bound does not exclude height 0; indices rebuilt by the locking genesis obey C13/R1,R3; the rebuilt voter queues hold every imported voter whose status says so",
          "equality of two exports, query equivalence (runtime)"),
  "C19": ("reachability from errgroup closures and block hooks + must-pass nil/length guard facts + reviewed table of explicit block-hook failures tied to the C13/C16 invariants + SSA referrer analysis of every error result (errcheck-like, exact exemption table) + failure-branch path search for state writes",
-         "outside the framework's panic recovery: the payload nil guard precedes both verification goroutines, every index/slice of proposed data in VerifyDequeue is dominated by its length guard, no unchecked type assertion, explicit panic or dereference of a possibly-nil local pointer is reachable from a goroutine; nothing reachable from the ante handler writes a store (its writes would survive a failing message); the explicit failure exits of begin/end-of-block code are exactly the reviewed ones and the invariants excluding them hold (incl. the zero-power exit needing a non-empty last commit); no process-local state survives a failed tx; no error result is discarded in hand-written production code and no tested state-write failure reaches a success exit; no pointer dereference and no panic(err) on a path where a dominating branch established that the value is nil; every Params field consensus code divides by is validated positive; a store read whose error is tested lets the err != nil branch reach a success exit only over an errors.Is(err, …) edge",
+         "outside the framework's panic recovery: the payload nil guard precedes both verification goroutines, every index/slice of proposed data in VerifyDequeue is dominated by its length guard, no unchecked type assertion, explicit panic or dereference of a possibly-nil local pointer is reachable from a goroutine; nothing reachable from the ante handler writes a store (its writes would survive a failing message); the explicit failure exits of begin/end-of-block code are exactly the reviewed ones and the invariants excluding them hold (incl. the zero-power exit needing a non-empty last commit); no process-local state survives a failed tx; no error result is discarded in hand-written production code and no tested state-write failure reaches a success exit; no pointer dereference and no panic(err) on a path where a dominating branch established that the value is nil; every Params field consensus code divides by is validated positive; a store read whose error is tested lets the err != nil branch reach a success exit only over an errors.Is(err, …) edge; errors.Is is called with the error first and the sentinel second wherever a dead forgiving branch would fail a transaction, hook, proposal, import or export",
          "robustness against arbitrary bytes in general (decoders, dependencies) — a fuzzing property; panics inside handlers are recovered by baseapp and are rejections"),
 }
 
